@@ -15,6 +15,7 @@ EXPLANATION = (
     "scale = error_scaling.get(e, 1); (R3) reader = writer: get_objective_value recomputes the objective with the same per-edge factors the "
     "encoder uses (is_valid_solution compares the two); (R4) the bound w_max is at least the largest non-ignored weight and weights have the "
     "requested numeric type; (R5) the constructor never writes to the caller's ignore list / options / "
+    "(R7) for the cyclic model the walks handed out traverse every edge as often as the solver decided (linear-use rule of C14.R1).  "
     "constraints or to their shared defaults, so the set of ignored (zero-scaled) edges is exactly what this call's arguments say.  NOT decided: optimality; sufficiency of w_max = k*max f as a bound for every optimum."
 )
 DECIDED = ["two-sided error rows and scaled objective present and complete", "reported objective recomputed with the same scaling as the model's objective",
